@@ -38,6 +38,11 @@ def g(*labels, **kw):
     return _tagger("".join(str(x) for x in labels) + "".join(str(x) for x in kw.values()))
 
 
+def boom(s):
+    """a user filter that fails: the failure must reach the caller of render()"""
+    raise ValueError("boom")
+
+
 class _NS:
     """an object whose attributes are filters (`ns.f1`, `ns.g("x")`)"""
 
